@@ -57,6 +57,15 @@ TEMPLATES = [
     ("flat_map", ["--select=(flat_map .a (push [] .))=v"], lambda xs: {"v": xs}),
     ("fold", ["--select=(fold .a [] (push .so_far .value))=v"], lambda xs: {"v": xs}),
     ("group_by-fn", ["--select=(group_by .a \"k\")=v"], lambda xs: {"v": {"k": xs}}),
+    # equality and ordering among integers that share one double (2^53 and 2^53+1, 2^64-1 and 2^64-2, ...): the values and
+    # their number must survive, whatever order a sort puts them in ("multiset": compared as sorted lists of exact integers)
+    ("sort_unique", ["--select=(sort_unique .a)=v"], lambda xs: ("multiset", xs)),
+    ("sort-fn", ["--select=(sort .a)=v"], lambda xs: ("multiset", xs)),
+    ("sort-by-self", ["--split-by=.a", "--sort-by=."], lambda xs: ("multirows", xs)),
+    ("sort-unique-opt", ["--split-by=.a", "--sort-by=.", "--unique"], lambda xs: ("multirows", xs)),
+    ("filter-eq", ["--split-by=.a", "--filter=(= . ^.x)"], lambda xs: ("rows", [xs[0]])),
+    ("filter-neq", ["--select=(filter .a (!= . ^.x))=v"], lambda xs: {"v": xs[1:]}),
+    ("eq-matrix", ["--select=(map .a (= . ^.x))=v"], lambda xs: {"v": [True] + [False] * (len(xs) - 1)}),
 ]
 STYLES = [["--style", "one-line"], ["--style", "consise"], ["--style", "pretty"]]
 
@@ -85,6 +94,12 @@ def gen_int_unit(rng):
         r = rng.random()
         xs.append(rng.choice(BIG) if r < 0.5 else rng.choice(jm.BOUNDARY_INTS) if r < 0.7 else rng.randint(-(2 ** 63), 2 ** 64 - 1))
     # distinct values: equal integers would be legitimately merged by --unique; keep the expectation simple
+    if rng.random() < 0.5:
+        # a neighbour that rounds to the same double as an existing member
+        x = rng.choice(xs)
+        y = x + rng.choice((-1, 1))
+        if -(2 ** 63) <= y < 2 ** 64:
+            xs.insert(rng.randrange(len(xs) + 1), y)
     xs = dedupe(xs)
     if len(xs) < 2:
         xs.append(xs[0] - 1 if xs[0] > -(2 ** 63) else xs[0] + 1)
@@ -165,8 +180,16 @@ def run_unit(ctx, unit):
         except jm.JsonError as e:
             st.violation("unreadable", str(e), unit, {"stdout": o.stdout[:500]})
             return
-        want_rows = exp[1] if isinstance(exp, tuple) else [exp]
-        ok = len(rows) == len(want_rows) and all(jm.same(w, g) for w, g in zip(want_rows, rows))
+        if isinstance(exp, tuple) and exp[0] in ("multiset", "multirows"):
+            got = rows if exp[0] == "multirows" else (rows[0].get("v") if len(rows) == 1 and isinstance(rows[0], dict) else None)
+            want_rows = exp[1]
+            ok = (isinstance(got, list) and all(isinstance(t, jm.JNum) and t.is_int for t in got)
+                  and sorted(int(t.text) for t in got) == sorted(exp[1]))
+            if ok:
+                rows = got
+        else:
+            want_rows = exp[1] if isinstance(exp, tuple) else [exp]
+            ok = len(rows) == len(want_rows) and all(jm.same(w, g) for w, g in zip(want_rows, rows))
         if ok:
             # digit identity: every integer token must be spelt as an integer with exactly the input digits
             toks = tokens(rows)
